@@ -1344,9 +1344,8 @@ func filterImage(
 ) (bufimage.Image, error) {
 	newImage := image
 	var err error
-	if functionOptions.imageExcludeImports {
-		newImage = bufimage.ImageWithoutImports(newImage)
-	}
+	// The types are filtered while the imports are still there: a type that is kept
+	// can need a type of an import, which the filter has to be able to look up.
 	includeTypes := functionOptions.imageIncludeTypes
 	excludeTypes := functionOptions.imageExcludeTypes
 	if len(includeTypes) > 0 || len(excludeTypes) > 0 {
@@ -1359,6 +1358,9 @@ func filterImage(
 		if err != nil {
 			return nil, err
 		}
+	}
+	if functionOptions.imageExcludeImports {
+		newImage = bufimage.ImageWithoutImports(newImage)
 	}
 	if !imageCameFromAWorkspace {
 		if len(functionOptions.targetPaths) > 0 || len(functionOptions.targetExcludePaths) > 0 {
